@@ -1,6 +1,7 @@
 """C15 Bloom filter (DESIGN.md section 5 C15; A6)."""
 import bloom_rules as B
 import generic_lints
+import hazard_lints
 import predicates
 import c19_rules
 
@@ -18,6 +19,7 @@ def run(facts, tier):
         ("reset completeness", lambda fa: c19_rules.reset_completeness(fa, ['bloom_filter_alloc']), 2, "every field a mutator modifies is re-initialised by reset() (a reused object equals a fresh one); reviewed exceptions are configuration fields"),
         ("emptiness predicate support", lambda fa: predicates.obligations(fa, ['bloom_filter_alloc']), 2, "the emptiness predicate still consults every field it depended on in the reviewed tree (spec/predicates.json)"),
         ("tautologies", lambda fa: generic_lints.tautologies(fa, ('filters/',)), 2, "no comparison / assignment / min-max with two identical operands, no if-else with identical arms"),
+        ("hazards", lambda fa: hazard_lints.hazards(fa, ('filters/',)), 2, "no 64-bit value silently narrowed at a call of a library function, no numeric_limits<floating>::min() as a lowest value, no random engine constructed inside a loop, no read of a moved-from parameter, no unguarded unsigned `x - c` loop bound (reviewed instances in spec/hazards.json)"),
         ("duplicate operands", lambda fa: generic_lints.duplicate_conjuncts(fa, ('filters/',)), 2, "no logical chain tests the same operand twice (copy-paste of the wrong peer)"),
         ("state-writing shortcuts", lambda fa: generic_lints.state_writing_shortcuts(fa, ['bloom_filter_alloc']), 1, "no merge / update branch writes fields and returns early past the steps all other paths run (compaction loop, totals, cached counts); one reviewed exception"),
         ("forwarding peers", lambda fa: generic_lints.forwarding_peers(fa, ('filters/',)), 18, "one-statement typed overloads forward to an overload of their own name, never to the head of a sibling family (wrong peer)"),
